@@ -139,6 +139,21 @@ Proof.
 Qed.
 Print Assumptions interextra_integral_consistent.
 
+(* ---- 4b. Sutherland and polynomial property values (generated expressions) *)
+(* the Sutherland law eta0 (t0 + ts)/(ts + T) (T/t0)^1.5; x^1.5 is an oracle [pow15]; at the reference
+   temperature the property returns the reference viscosity *)
+Theorem sutherland_value_law : forall pow15 eta0 t0 ts x,
+  sutherland_value pow15 eta0 t0 ts x == eta0 * (t0 + ts) / (ts + x) * pow15 (x / t0) /\
+  (pow15 (t0 / t0) == 1 -> ~ t0 + ts == 0 -> sutherland_value pow15 eta0 t0 ts t0 == eta0).
+Proof. intros. split; [apply sutherland_formula_lemma | apply sutherland_reference_lemma]. Qed.
+Print Assumptions sutherland_value_law.
+
+(* a polynomial property returns the value of its regression polynomial (Horner = sum of powers) *)
+Theorem polynomial_value_law : forall cs x,
+  polynomial_value (fst (polynomial_getters cs)) x == poly_desc cs x.
+Proof. exact polynomial_value_lemma. Qed.
+Print Assumptions polynomial_value_law.
+
 (* ---- 5. mixtures: any number of components *)
 Theorem mass_fractions_sum_to_one : forall xm,
   ~ qsum (map (fun p => fst p * snd p) xm) == 0 -> qsum (mass_from_molar xm) == 1.
@@ -225,6 +240,11 @@ Example integral_example :   (* the former counterexample of additivity: limits 
   interextra_integral (interextra_antiderivative t) 4 (-2) == 9.
 Proof. vm_compute. repeat split. Qed.
 
+Example sutherland_example :
+  sutherland_value (fun r => if Qeq_bool r 4 then 8 else 1) (1 # 64) 64 256 256 == 5 # 64 /\
+  polynomial_value (fst (polynomial_getters [3; 0; -(2)])) 2 == 10.
+Proof. vm_compute. split; reflexivity. Qed.
+
 Example mixture_example :
   let xm := [(1 # 2, 16); (1 # 4, 28); (1 # 4, 44)] in
   qsum (map fst xm) == 1 /\ Forall (fun p => ~ snd p == 0) xm /\ fractions_ok xm /\ values_within 16 44 xm /\
@@ -238,3 +258,11 @@ Qed.
 Example pump_example : pump_get [-(1 # 4); 0; 6] (QVec [1 # 3600; -(1); 8 # 3600]) = RVec (pump_array [-(1 # 4); 0; 6] [1 # 3600; -(1); 8 # 3600])
   /\ qlist_eqb (pump_array [-(1 # 4); 0; 6] [1 # 3600; -(1); 8 # 3600]) [23 # 4; 0; 0] = true.
 Proof. split; reflexivity. Qed.
+
+Example std_type_example :   (* rows with a derived heat transfer value and rows with none occur in Pipe.csv (none gives it directly) *)
+  existsb (fun s => match s_u_w_per_mk s with Some _ => true | None => false end) pipe_library = true /\
+  existsb (fun s => match s_u_w_per_mk s, s_u_w_per_m2k s with None, None => true | _, _ => false end) pipe_library = true /\
+  created_cell create_pipe_std_columns retrieve_u_writes retrieve_u_default "inner_diameter_mm"
+    (hd {| s_name := ""; s_inner_diameter_mm := None; s_outer_diameter_mm := None; s_k_mm := None;
+           s_u_w_per_m2k := None; s_u_w_per_mk := None |} pipe_library) = CVal (Some 86).
+Proof. vm_compute. repeat split. Qed.
